@@ -639,7 +639,7 @@ impl Decode<'_> for Constant {
             [1] => Ok(Constant::ByteString(Vec::<u8>::decode(d)?)),
             [2] => Ok(Constant::String(String::decode(d)?)),
             [3] => Ok(Constant::Unit),
-            [4] => Ok(Constant::Bool(bool::decode(d)?)),
+            [4] => Ok(Constant::Bool(decode_bool(d)?)),
             [7, 5, rest @ ..] => {
                 let mut rest = VecDeque::from(rest.to_vec());
 
@@ -700,13 +700,19 @@ impl Decode<'_> for Constant {
     }
 }
 
+/// Decode one bit as a bool. `Decoder::bool` reads `buffer[pos]` without checking
+/// that the input has a bit left and panics on truncated input; `bits8` checks first.
+fn decode_bool(d: &mut Decoder) -> Result<bool, de::Error> {
+    Ok(d.bits8(1)? == 1)
+}
+
 fn decode_constant_value(typ: Rc<Type>, d: &mut Decoder) -> Result<Constant, de::Error> {
     match typ.as_ref() {
         Type::Integer => Ok(Constant::Integer(BigInt::decode(d)?)),
         Type::ByteString => Ok(Constant::ByteString(Vec::<u8>::decode(d)?)),
         Type::String => Ok(Constant::String(String::decode(d)?)),
         Type::Unit => Ok(Constant::Unit),
-        Type::Bool => Ok(Constant::Bool(bool::decode(d)?)),
+        Type::Bool => Ok(Constant::Bool(decode_bool(d)?)),
         Type::List(sub_type) => {
             let list: Vec<Constant> =
                 d.decode_list_with(|d| decode_constant_value(sub_type.clone(), d))?;
